@@ -53,14 +53,8 @@ ObjectStep(j) ==
      ELSE LET w == FDiv(TwoPi, T)
               raw == Peaks3(Flow(T, R.xi, R.dt), R.a).pu
               tr == AbsTol(T, R.dt, n, raw, FDiv(Pga, FSq(w)))
-              match(k, tail) ==
-                LET dtk == FDiv(R.dt, FInt(k))  rec == WithTail(R.a, k, tail)
-                    pu == Peaks3(Flow(T, R.xi, dtk), rec).pu
-                    tu == AbsTol(T, dtk, Len(rec), pu, FDiv(Pga, FSq(w)))
-                IN /\ Close(R.sd[j], pu, tu)
-                   /\ (IF FLt(T, FMul(FInt(6), dtk)) THEN FEq(R.sa[j], Pga) ELSE NearR(R.sa[j], FMul(FSq(w), R.sd[j]), Rel12))
           IN Fails(FiniteNonNeg(j), "FiniteNonNeg")
-             \cup Fails(\E k \in kmin..(2 * kmin + 2) : match(k, TRUE) \/ match(k, FALSE), "ObjectStepRule")
+             \cup Fails(ObjectSpectrumOK(R.a, R.dt, R.xi, R.q, tmin, T, R.sd[j], R.sa[j]), "ObjectStepRule")
              \cup Fails(FGe(R.sd[j], FSub(raw, tr)), "ObjectNotBelowRaw")
              \cup Fails(NearR(R.sv[j], FMul(w, R.sd[j]), Rel12), "PseudoRelations")
 
